@@ -69,6 +69,9 @@ def main():
     from framework import run_obligation
     ctx = Context(mir, srcdir)
     obs = mod.obligations(ctx, cfg)
+    only = os.environ.get('VERIF_ONLY')          # development aid: run a subset of the obligations (never used by MANIFEST commands)
+    if only:
+        obs = [o for o in obs if only in o.id]
     expected = {}
     ecp = os.path.join(VERIF, 'engines', 'mirsmt', 'expected_covers.json')
     if os.path.exists(ecp):
